@@ -53,6 +53,9 @@ pub struct Histories {
 
 impl Prop for Histories {
     type Case = Case;
+    fn input_bytes<'a>(&self, c: &'a mut Self::Case) -> Option<&'a mut Vec<u8>> {
+        Some(&mut c.input.0)
+    }
     fn strategy(&self, _tier: Tier) -> BoxedStrategy<Case> {
         let sw = self.seek_weight;
         let per_format = move |f: Format| {
